@@ -46,10 +46,10 @@ func (v *Validator) ValidateAll(ctx context.Context) (*ValidationReport, error) 
 		Results:   []ValidationResult{},
 	}
 
-	// Find PartStore using reflection
-	partStore := findPartStore(v.storage)
-	if partStore == nil {
-		return nil, fmt.Errorf("could not find PartStore in storage hierarchy")
+	// Find the part stores using reflection
+	partStores := findPartStores(v.storage)
+	if partStores == nil {
+		return nil, fmt.Errorf("could not find part stores in storage hierarchy")
 	}
 
 	// Get database connection
@@ -102,7 +102,7 @@ func (v *Validator) ValidateAll(ctx context.Context) (*ValidationReport, error) 
 			slog.Info(fmt.Sprintf("Validating object %d (Bucket: %s, Object: %s) - Rate: %.2f obj/s",
 				processedObjects, bucket.Name, object.Key, rate))
 
-			result := v.validateObject(ctx, db, partStore, partRepo, objectRepo, bucket.Name, object)
+			result := v.validateObject(ctx, db, partStores, partRepo, objectRepo, bucket.Name, object)
 			report.Results = append(report.Results, result)
 
 			if result.Success {
@@ -133,7 +133,7 @@ func (v *Validator) ValidateAll(ctx context.Context) (*ValidationReport, error) 
 	return report, nil
 }
 
-func (v *Validator) validateObject(ctx context.Context, db database.Database, partStore partstore.PartStore,
+func (v *Validator) validateObject(ctx context.Context, db database.Database, partStores *partstore.NamedPartStores,
 	partRepo part.Repository, objectRepo object.Repository,
 	bucketName storage.BucketName, object storage.Object) ValidationResult {
 
@@ -164,7 +164,18 @@ func (v *Validator) validateObject(ctx context.Context, db database.Database, pa
 		var partChecksums []storage.ChecksumValues
 
 		for _, part := range parts {
-			// Read part content
+			// Read part content from the store the part row names
+			partStore, err := partStores.ByName(part.PartStoreName)
+			if err != nil {
+				result.Success = false
+				result.ErrorType = "Part retrieval failed"
+				result.PartFailures = append(result.PartFailures, PartFailure{
+					PartID:         part.PartId.String(),
+					SequenceNumber: part.SequenceNumber,
+					Error:          fmt.Sprintf("Part store lookup failed: %v", err),
+				})
+				continue
+			}
 			reader, err := partStore.GetPart(ctx, tx, part.PartId)
 			if err != nil {
 				result.Success = false
@@ -382,7 +393,7 @@ func (v *Validator) confirmDeletion(result ValidationResult) bool {
 	return false
 }
 
-func findPartStore(s interface{}) partstore.PartStore {
+func findPartStores(s interface{}) *partstore.NamedPartStores {
 	val := reflect.ValueOf(s)
 	if val.Kind() == reflect.Ptr {
 		val = val.Elem()
@@ -391,14 +402,17 @@ func findPartStore(s interface{}) partstore.PartStore {
 		return nil
 	}
 
-	// Check if any field is a PartStore
-	partStoreType := reflect.TypeOf((*partstore.PartStore)(nil)).Elem()
+	// Check if any field holds the named part stores
+	partStoresType := reflect.TypeOf((*partstore.NamedPartStores)(nil))
 
 	for i := 0; i < val.NumField(); i++ {
 		field := val.Field(i)
-		if field.Type().Implements(partStoreType) {
+		if field.Type() == partStoresType {
 			// Handle unexported fields
-			return reflect.NewAt(field.Type(), unsafe.Pointer(field.UnsafeAddr())).Elem().Interface().(partstore.PartStore)
+			stores := reflect.NewAt(field.Type(), unsafe.Pointer(field.UnsafeAddr())).Elem().Interface().(*partstore.NamedPartStores)
+			if stores != nil {
+				return stores
+			}
 		}
 	}
 
@@ -409,7 +423,7 @@ func findPartStore(s interface{}) partstore.PartStore {
 		if field.Type().Implements(storageType) {
 			// Recurse
 			inner := reflect.NewAt(field.Type(), unsafe.Pointer(field.UnsafeAddr())).Elem().Interface()
-			if bs := findPartStore(inner); bs != nil {
+			if bs := findPartStores(inner); bs != nil {
 				return bs
 			}
 		}
